@@ -116,63 +116,70 @@ def _hint_chain(h):
     return out
 
 
-def line_fixes(line):
-    t = line.split(" ")
-    return set(t[-1][3:].split(",")) if t[-1].startswith("fx=") else set()
-
-
-def explain_write(exp, act, chain, sets=(), fixes=frozenset()):
-    """Explain the serialised bytes `act` from the expected bytes `exp` by the known serialisation defects of the cached
-    layers in `chain`: replay how each layer writes itself (its fixed-size header, then the cached inner object or the raw
-    bytes after its payload offset) and allow the bytes a defective setter is known not to write back properly.
+def explain_write(exp, act, chain, sets=()):
+    """Name the way the serialised bytes `act` differ from the expected bytes `exp` when the difference is one of the
+    serialisation defects p2sh had before commits aefd4e7 / d83dd30 / 3d62d14 / 3aaa561 (so that a regression is reported
+    under a telling class): replay how each cached layer of `chain` would write itself with such a defect.
     Returns the set of atoms, or None."""
     exp = bytes.fromhex(exp)
     act = bytes.fromhex(act)
     if len(exp) < 16 or not chain or chain[0][0] != "packet":
         return None
     frame = exp[16:]
-    size = {"eth": 14, "vlan": 4, "ipv4": 20, "ipv6": 40, "tcp": 18, "udp": 8}
-    out = bytearray(exp[:16])
-    atoms = set()
-    loose = {}           # position in `out` -> atom that excuses a difference there
+    fixed = {"eth": 14, "vlan": 4, "ipv4": 20, "ipv6": 40, "tcp": 20, "udp": 8}
     setk = {(k, p) for k, p in sets}
-    for i, (kind, attrs, start) in enumerate(chain[1:], 1):
-        if kind == "err":
-            if "errser" in fixes:
-                out += frame[start:]
-            elif start < len(frame):
-                atoms.add("W:error-object-swallows-rest")
-            break
-        if kind not in size:
-            return None
-        pay = attrs.get("off", start + size[kind])
-        whole = (kind == "tcp" and "tcp" in fixes) or (kind == "ipv4" and "ipv4opt" in fixes)   # header and options written
-        if kind == "tcp" and "tcp" not in fixes and setk & {("tcp", "dataoff"), ("tcp", "len"), ("tcp", "flags")}:
-            loose[len(out) + 12] = "W:tcp-dataoff-and-flags-share-one-word"
-        if kind == "ipv6" and "flow20" not in fixes and ("ipv6", "flowlabel") in setk:
-            loose[len(out) + 1] = "W:ipv6-flowlabel-spills-into-trafficclass"
-        out += frame[start:pay] if whole else frame[start:start + size[kind]]
-        if kind == "tcp" and not whole:
-            atoms.add("W:tcp-urgent-dropped")
-        if kind == "ipv4" and not whole and pay - start > 20:
-            atoms.add("W:ipv4-options-dropped")
-        if kind == "ipv4" and not whole and pay - start < 20:
-            atoms.add("W:ipv4-ihl-below-5-bytes-repeated")
-        last = i == len(chain) - 1
-        if last or kind in ("tcp", "udp"):
-            out += frame[pay:]
-            break
-    else:
-        if len(chain) == 1:
-            out += frame
-    if len(out) != len(act):
-        return None
-    for j, (x, y) in enumerate(zip(out, act)):
-        if x != y:
-            if j not in loose:
-                return None
-            atoms.add(loose[j])
-    return atoms or None
+    # every subset of the old defects that the layers of the chain could exhibit
+    cands = []
+    for kind, attrs, start in chain[1:]:
+        if kind == "tcp":
+            cands.append("W:tcp-urgent-dropped")
+        if kind == "ipv4" and attrs.get("off", start + 20) != start + 20:
+            cands.append("W:ipv4-options-dropped")
+        if kind == "err" and start < len(frame):
+            cands.append("W:error-object-swallows-rest")
+    for mask in range(1, 1 << len(cands)):
+        on = {c for i, c in enumerate(cands) if mask >> i & 1}
+        out = bytearray(exp[:16])
+        loose = {}
+        done = False
+        for i, (kind, attrs, start) in enumerate(chain[1:], 1):
+            if kind == "err":
+                if "W:error-object-swallows-rest" not in on:
+                    out += frame[start:]
+                done = True
+                break
+            if kind not in fixed:
+                out = None
+                break
+            pay = attrs.get("off", start + fixed[kind])
+            if kind == "tcp" and setk & {("tcp", "dataoff"), ("tcp", "len"), ("tcp", "flags")}:
+                loose[len(out) + 12] = "W:tcp-dataoff-and-flags-share-one-word"
+            if kind == "ipv6" and ("ipv6", "flowlabel") in setk:
+                loose[len(out) + 1] = "W:ipv6-flowlabel-spills-into-trafficclass"
+            if kind == "tcp" and "W:tcp-urgent-dropped" in on:
+                out += frame[start:start + 18] + frame[start + 20:pay]
+            elif kind == "ipv4" and "W:ipv4-options-dropped" in on:
+                out += frame[start:start + 20]
+            else:
+                out += frame[start:pay]
+            if i == len(chain) - 1 or kind in ("tcp", "udp"):
+                out += frame[pay:]
+                done = True
+                break
+        if out is None or not done or len(out) != len(act):
+            continue
+        atoms = set(on)
+        ok = True
+        for j, (x, y) in enumerate(zip(out, act)):
+            if x != y:
+                if j not in loose:
+                    ok = False
+                    break
+                atoms.add(loose[j])
+        if ok:
+            return atoms
+    # no structural defect: only the bytes a setter may fail to write back
+    return None
 
 
 def _split_hint(h):
@@ -281,7 +288,7 @@ def atoms_of(line, spec, out, focus):
                 continue
             ex = None
             if want.startswith("ok ") and g.startswith("ok "):
-                ex = explain_write(want[3:], g[3:], chain, sets, line_fixes(line))
+                ex = explain_write(want[3:], g[3:], chain, sets)
             if st == "R":
                 reparse_broken = True
             atoms.extend(sorted(ex) if ex else ["W:unexplained"])
@@ -370,42 +377,7 @@ def make_hooks(prop, focus):
 
 canon = wire.canon_rterr
 
-# ------------------------------------------------------------------ proposed repairs present in the tree under test
-
-_PROBE_TCP = "001122334455aabbccddeeff08004500002c12344000400600000a0000010a0000021f90005000000001000000025012faf0abcd1234deadbeef"
-_PROBE_OPT = "001122334455aabbccddeeff0800460000200000000040110000" + "0a0000010a000002" + "01020304" + "0035003500080000"
-_PROBE_V6 = "001122334455aabbccddeeff86dd6000000000081140" + "00" * 15 + "01" + "00" * 15 + "02" + "0035003500080000"
-_PROBE_VLAN6 = "001122334455aabbccddeeff8100000186dd6000000000081140" + "00" * 15 + "01" + "00" * 15 + "02" + "0035003500080000"
-PROBES = [
-    ("tcp", f"pkt {_PROBE_TCP} Geth.ipv4.tcp;W", lambda o: o.endswith(_PROBE_TCP)),
-    ("ipv4opt", f"pkt {_PROBE_OPT} Geth.ipv4;W", lambda o: o.endswith(_PROBE_OPT)),
-    ("errser", f"pkt {_PROBE_TCP[:48]} Geth.ipv4;W", lambda o: o.endswith(_PROBE_TCP[:48])),
-    ("typecheck", f"pkt {_PROBE_TCP} Geth.vlan", lambda o: o == "ok n"),
-    ("vlan6", f"pkt {_PROBE_VLAN6} G$3", lambda o: o == "ok O:ipv6"),
-    ("v6text", "addr v6 " + "::1".encode().hex(), lambda o: o.startswith("ok ")),
-    ("flow20", f"pkt {_PROBE_V6} Seth.ipv6.flowlabel=i:2097151;Geth.ipv6.flowlabel", lambda o: o.endswith("ok i:1048575")),
-]
-
-
-def fix_token(ctx):
-    """The proposed repairs the tree under test contains, found by probing the harness built from it, as the token the
-    Lean driver understands (`` when there is none: the model of the code as it is, which the theorems are about, applies).
-    On a scratch worktree this is how a proposed fix is validated.  On /repo itself a detected repair means that the fix was
-    applied and the as-is model, its theorems and the known findings must now be brought up to date: reported as a problem."""
-    if not getattr(ctx, "harness", None):
-        return ""
-    outs = vlib.run_parallel(ctx.harness, [l for _, l, _ in PROBES], timeout=60, shards=1)
-    flags = [name for (name, _, ok), o in zip(PROBES, outs) if ok(o)]
-    if not flags:
-        return ""
-    ctx.notes.append("proposed repairs detected in the tree under test: " + ",".join(flags))
-    if ctx.key == "main":
-        ctx.problems.append({"kind": "T", "name": "packet model out of date",
-                             "detail": "the working tree contains the repair(s) " + ", ".join(flags) + " of verif/proposed-fixes: P2sh.Proto (the model of the code as it is) "
-                                       "and the theorems of Props/C15-C18 that are stated about it describe the old code. Move the corresponding branches of "
-                                       "P2sh.ProtoFix into P2sh.Proto, replace the witness theorems by the full ones, and mark the known findings fixed."})
-    return " fx=" + ",".join(flags)
-
+# ------------------------------------------------------------------ witnesses
 
 def witness_cases(prop):
     """the witness line of every known finding of the property: exercised on every run, whatever the generators draw"""
@@ -413,13 +385,9 @@ def witness_cases(prop):
             if k.get("property") == prop and k.get("status") == "known" and k.get("witness", "").startswith(("pkt ", "addr "))]
 
 
-def with_fix(ctx, cases):
-    cases = witness_cases(ctx.prop) + list(cases)
-    tok = fix_token(ctx)
-    if tok:
-        for c in cases:
-            c.line += tok
-    return cases
+def with_witnesses(ctx, cases):
+    return witness_cases(ctx.prop) + list(cases)
+
 
 # ------------------------------------------------------------------ frames
 
